@@ -18,8 +18,19 @@ import (
 	"github.com/metrico/qryn/writer/model"
 	"github.com/metrico/qryn/writer/utils/helpers"
 	"github.com/metrico/qryn/writer/utils/proto/prompb"
+	commonpb "go.opentelemetry.io/proto/otlp/common/v1"
+	resourcepb "go.opentelemetry.io/proto/otlp/resource/v1"
+	tracepb "go.opentelemetry.io/proto/otlp/trace/v1"
 	"google.golang.org/protobuf/proto"
 )
+
+const bigLokiLines = 180
+
+var bigLokiPad = strings.Repeat("x", 2000)
+
+func otlpStr(k, v string) *commonpb.KeyValue {
+	return &commonpb.KeyValue{Key: k, Value: &commonpb.AnyValue{Value: &commonpb.AnyValue_StringValue{StringValue: v}}}
+}
 
 // BaseNs is the timestamp every generated row starts from: 2024-01-15 12:00:00 UTC.
 const BaseNs = int64(1705320000) * 1e9
@@ -169,11 +180,14 @@ type Expect struct {
 }
 
 // HTTPKinds lists the request builders.
-var HTTPKinds = []string{"loki", "prom", "zipkin", "profile"}
+var HTTPKinds = []string{"loki", "prom", "zipkin", "profile", "otlp"}
 
 // BuildHTTP builds push request number req of the given protocol with n entries spread
-// over streams series/spans. big asks for the large variant of the protocol (prom: one
-// series beyond the decoder's 1000-point flush; profile: labels beyond the 1 MiB chunk limit).
+// over streams series/spans. big asks for the large variant of the protocol: prom: one
+// series beyond the decoder's 1000-point flush; profile: labels beyond the 1 MiB chunk
+// limit; loki / zipkin / otlp: a body whose accounted size crosses the parser's 1 MiB chunk
+// threshold (parserDoer.onEntries / onSpan), so that one body becomes >= 2 insert requests
+// per service. The bulk sits in fields that are not part of a row marker.
 func BuildHTTP(proto_ string, req, streams, n int, big bool) (*http.Request, []Expect) {
 	if streams < 1 {
 		streams = 1
@@ -181,6 +195,9 @@ func BuildHTTP(proto_ string, req, streams, n int, big bool) (*http.Request, []E
 	var exp []Expect
 	switch proto_ {
 	case "loki":
+		if big {
+			streams = 4 + n%3 // 3 streams of bigLokiLines padded lines exceed 1 MiB
+		}
 		var sb strings.Builder
 		sb.WriteString(`{"streams":[`)
 		for s := 0; s < streams; s++ {
@@ -193,13 +210,22 @@ func BuildHTTP(proto_ string, req, streams, n int, big bool) (*http.Request, []E
 			if s < n%streams {
 				cnt++
 			}
+			if big {
+				cnt = bigLokiLines
+			}
 			for i := 0; i < cnt; i++ {
 				if i > 0 {
 					sb.WriteString(",")
 				}
 				line := fmt.Sprintf("L%d-s%d-%d", req, s, i)
+				if big {
+					// the size is accounted per line (len+26) and checked after every stream
+					line += bigLokiPad
+					exp = append(exp, Expect{Table: "samples_v3", Marker: MarkerOfLine(line)})
+				} else {
+					exp = append(exp, Expect{Table: "samples_v3", Marker: line})
+				}
 				fmt.Fprintf(&sb, `["%d","%s"]`, BaseNs+int64(req)*1e6+int64(s)*1000+int64(i), line)
-				exp = append(exp, Expect{Table: "samples_v3", Marker: line})
 			}
 			sb.WriteString("]}")
 			if cnt > 0 {
@@ -239,14 +265,21 @@ func BuildHTTP(proto_ string, req, streams, n int, big bool) (*http.Request, []E
 	case "zipkin":
 		var sb strings.Builder
 		sb.WriteString("[")
+		bulk := ""
+		if big {
+			// an unknown member is skipped by the decoder but is part of the stored payload, whose
+			// length is accounted: 6 spans exceed 1 MiB
+			n += 7
+			bulk = `,"debugPad":"` + strings.Repeat("p", 200*1024) + `"`
+		}
 		for i := 0; i < n; i++ {
 			if i > 0 {
 				sb.WriteString(",")
 			}
 			tr, sp := ids(req, i)
 			name := fmt.Sprintf("Z%d-%d", req, i)
-			fmt.Fprintf(&sb, `{"traceId":"%s","id":"%s","name":"%s","timestamp":%d,"duration":%d,"localEndpoint":{"serviceName":"zs%d"},"tags":{"mk":"zv%d-%d"}}`,
-				hex.EncodeToString(tr), hex.EncodeToString(sp), name, (BaseNs+int64(req)*1e6+int64(i)*1000)/1000, 10+i, req, req, i)
+			fmt.Fprintf(&sb, `{"traceId":"%s","id":"%s","name":"%s","timestamp":%d,"duration":%d,"localEndpoint":{"serviceName":"zs%d"},"tags":{"mk":"zv%d-%d"}%s}`,
+				hex.EncodeToString(tr), hex.EncodeToString(sp), name, (BaseNs+int64(req)*1e6+int64(i)*1000)/1000, 10+i, req, req, i, bulk)
 			h := hex.EncodeToString(sp)
 			exp = append(exp, Expect{Table: "tempo_traces", Marker: h + "/" + name})
 			exp = append(exp, Expect{Table: "tempo_traces_attrs_gin", Marker: h + "/name=" + name})
@@ -256,6 +289,32 @@ func BuildHTTP(proto_ string, req, streams, n int, big bool) (*http.Request, []E
 		sb.WriteString("]")
 		r := httptest.NewRequest("POST", "/tempo/spans", strings.NewReader(sb.String()))
 		r.Header.Set("Content-Type", "application/json")
+		return r, exp
+	case "otlp":
+		bulk := ""
+		if big {
+			n += 7
+			bulk = strings.Repeat("s", 200*1024) // trace_state: in the stored payload, in no marker
+		}
+		rs := &tracepb.ResourceSpans{Resource: &resourcepb.Resource{Attributes: []*commonpb.KeyValue{otlpStr("service.name", fmt.Sprintf("os%d", req))}}}
+		ss := &tracepb.ScopeSpans{Scope: &commonpb.InstrumentationScope{Name: "inssvc"}}
+		for i := 0; i < n; i++ {
+			tr, sp := ids(req, i)
+			name := fmt.Sprintf("O%d-%d", req, i)
+			start := uint64(BaseNs + int64(req)*1e6 + int64(i)*1000)
+			ss.Spans = append(ss.Spans, &tracepb.Span{TraceId: tr, SpanId: sp, Name: name, Kind: tracepb.Span_SPAN_KIND_SERVER,
+				StartTimeUnixNano: start, EndTimeUnixNano: start + uint64(10+i), TraceState: bulk,
+				Attributes: []*commonpb.KeyValue{otlpStr("mk", fmt.Sprintf("ov%d-%d", req, i))}})
+			h := hex.EncodeToString(sp)
+			exp = append(exp, Expect{Table: "tempo_traces", Marker: h + "/" + name})
+			exp = append(exp, Expect{Table: "tempo_traces_attrs_gin", Marker: h + "/name=" + name})
+			exp = append(exp, Expect{Table: "tempo_traces_attrs_gin", Marker: fmt.Sprintf("%s/mk=ov%d-%d", h, req, i)})
+			exp = append(exp, Expect{Table: "tempo_traces_attrs_gin", Marker: fmt.Sprintf("%s/service.name=os%d", h, req)})
+		}
+		rs.ScopeSpans = []*tracepb.ScopeSpans{ss}
+		raw, _ := proto.Marshal(&tracepb.TracesData{ResourceSpans: []*tracepb.ResourceSpans{rs}})
+		r := httptest.NewRequest("POST", "/v1/traces", bytes.NewReader(raw))
+		r.Header.Set("Content-Type", "application/x-protobuf")
 		return r, exp
 	case "profile":
 		p := &profile.Profile{
